@@ -73,7 +73,7 @@ CHECKS = {
          "3/C01"),
  "C02": ("fault_enumeration",
          "Hypothesis termination scenarios in a forked worker; invariant over the timestamped per-payload event log vs the instant the call ended",
-         "Every termination trigger (failure per flavour and kind, raised KeyboardInterrupt, real SIGINT, shutdown(), stop()) at generated instants against generated sets of running coroutine payloads (sleeping, spinning, beating, just adopted, adopted from payloads, adopted during shutdown) with synchronous and shielded cleanup and blocked threads, compound triggers (shutdown followed by a failure inside the cleanup window) and payloads adopted by the failing payload in its last step; each started coroutine payload must log its framework's cancellation and cleanup-done before T_end and nothing after it.",
+         "A finite core (every trigger x flavour/state/cleanup of one running coroutine payload x runner, 570 scenarios) is enumerated completely in both tiers; beyond it every termination trigger (failure per flavour and kind, raised KeyboardInterrupt, real SIGINT, shutdown(), stop()) at generated instants against generated sets of running coroutine payloads (sleeping, spinning, beating, just adopted, adopted from payloads, adopted during shutdown) with synchronous and shielded cleanup and blocked threads, compound triggers (shutdown followed by a failure inside the cleanup window) and payloads adopted by the failing payload in its last step; each started coroutine payload must log its framework's cancellation and cleanup-done before T_end and nothing after it.",
          "Sampled interleavings and trigger instants; timestamps are monotonic_ns taken inside the payloads, T_end after the call returned; 20 s liveness bound.",
          "3/C02"),
  "C03": ("exploration",
@@ -83,7 +83,7 @@ CHECKS = {
          "3/C03"),
  "C10": ("exploration",
          "Hypothesis execute/adopt sequences in a forked worker; identity of result/exception evaluated in the worker, liveness of bystanders afterwards",
-         "1-15 execute calls per scenario over flavour x caller context x outcome x arguments, interleaved with adopts, callers acting the moment they start; exactly-once start with exact arguments in the runtime's own loop / trio run, identical result or exception object for the caller, bystanders keep beating, accept() ends only on shutdown().",
+         "A finite core (payload flavour x calling context x each of ~50 outcomes, one execute per scenario, 520 scenarios) is enumerated completely in both tiers; beyond it 1-15 execute calls per scenario over flavour x caller context x outcome x arguments, two concurrent outside callers, interleaved with adopts, callers acting the moment they start; exactly-once start with exact arguments in the runtime's own loop / trio run, identical result or exception object for the caller, bystanders keep beating, accept() ends only on shutdown().",
          "One blocking cross-loop direction per scenario; exceptions that Python's future plumbing converts are excluded; executed payloads are short.",
          "3/C10"),
  "C11": ("exploration",
